@@ -275,6 +275,10 @@ static std::string real(const std::string &scenario, int callers, int timeoutMs)
   cfg.protocol = Protocol::TCP;
   cfg.idleTimeout = std::chrono::seconds(3600);
   cfg.connectTimeout = std::chrono::milliseconds(3600 * 1000);
+  cfg.clientTls.enabled = true;               // TLS targets: a peer that never answers the ClientHello, a peer that answers garbage
+  cfg.clientTls.defaultMode = TlsMode::Client;
+  cfg.clientTls.verifyPeer = false;
+  cfg.handshakeTimeout = std::chrono::milliseconds(3600 * 1000);
   auto tr = Transport::tcp(cfg);
   auto *eng = static_cast<TcpEngine *>(tr->_impl->engine.get());
   std::mutex m;
@@ -294,6 +298,8 @@ static std::string real(const std::string &scenario, int callers, int timeoutMs)
     ::connect(f, reinterpret_cast<sockaddr *>(&a), sizeof(a));
     fill.push_back(f);
   }
+  std::uint16_t garbPort = 0;
+  int garbL = tcpListener(garbPort, 256);
   std::atomic<bool> done{false};
   std::atomic<int> acceptedByPeer{0};
   std::thread acceptor([&]
@@ -301,11 +307,24 @@ static std::string real(const std::string &scenario, int callers, int timeoutMs)
     std::vector<int> held;
     while (!done.load())
     {
-      pollfd p{okL, POLLIN, 0};
-      if (::poll(&p, 1, 5) > 0)
+      pollfd p[2] = {{okL, POLLIN, 0}, {garbL, POLLIN, 0}};
+      if (::poll(p, 2, 5) > 0)
       {
-        int f = ::accept(okL, nullptr, nullptr);
-        if (f >= 0) { held.push_back(f); acceptedByPeer++; }
+        if (p[0].revents & POLLIN)
+        {
+          int f = ::accept(okL, nullptr, nullptr);
+          if (f >= 0) { held.push_back(f); acceptedByPeer++; }
+        }
+        if (p[1].revents & POLLIN)
+        {
+          int f = ::accept(garbL, nullptr, nullptr);
+          if (f >= 0)
+          {
+            const char junk[] = "220 this is not a TLS server hello\r\n\r\n\r\n";
+            (void)!::write(f, junk, sizeof(junk) - 1);
+            held.push_back(f);
+          }
+        }
       }
     }
     for (int f : held) ::close(f);
@@ -319,17 +338,20 @@ static std::string real(const std::string &scenario, int callers, int timeoutMs)
     th.emplace_back([&, i]
     {
       std::string kind = scenario;
-      if (mixed) { const char *ks[] = {"ok", "refused", "resolve", "hole"}; kind = ks[i % 4]; }
+      if (mixed) { const char *ks[] = {"ok", "refused", "resolve", "hole", "tlsbad", "tlshang"}; kind = ks[i % 6]; }
       if (scenario == "stop" || scenario == "cancel") kind = "hole";
       std::string host = "127.0.0.1";
       std::uint16_t port = okPort;
       if (kind == "refused") port = refusedPort;
       else if (kind == "hole") port = holePort;
       else if (kind == "resolve") { host = "no-such-host.invalid"; port = 9; }
+      else if (kind == "tlsbad") port = garbPort;        // TCP connects, the handshake fails
+      else if (kind == "tlshang") port = okPort;         // TCP connects, the ClientHello is never answered
+      const TlsMode mode = (kind == "tlsbad" || kind == "tlshang") ? TlsMode::Client : TlsMode::None;
       auto t0 = Clock::now();
       ConnectResult r = scenario == "cancel"
-                          ? tr->connectSyncCancellable(host, port, token, TlsMode::None, std::chrono::milliseconds(timeoutMs))
-                          : tr->connectSync(host, port, TlsMode::None, std::chrono::milliseconds(timeoutMs));
+                          ? tr->connectSyncCancellable(host, port, token, mode, std::chrono::milliseconds(timeoutMs))
+                          : tr->connectSync(host, port, mode, std::chrono::milliseconds(timeoutMs));
       res[static_cast<std::size_t>(i)].ms = std::chrono::duration_cast<std::chrono::milliseconds>(Clock::now() - t0).count();
       res[static_cast<std::size_t>(i)].kind = kind;
       res[static_cast<std::size_t>(i)].result = r.isOk() ? "ok" : codeName(r.error().code);
@@ -360,7 +382,7 @@ static std::string real(const std::string &scenario, int callers, int timeoutMs)
   for (auto &r : res)
   {
     if (r.result == "ok") { oks++; handed.insert(r.sid); }
-    std::string expect = r.kind == "ok" ? "ok" : (r.kind == "refused" ? "Econnect" : (r.kind == "resolve" ? "Eresolve" : "Etimeout"));
+    std::string expect = r.kind == "ok" ? "ok" : (r.kind == "refused" ? "Econnect" : (r.kind == "resolve" ? "Eresolve" : (r.kind == "tlsbad" ? "Eengine" : "Etimeout")));
     if (scenario == "stop") expect = "Eengine|Eshut";
     if (scenario == "cancel") expect = "Ecancel";
     if (expect.find(r.result) == std::string::npos) verdict += " wrong-result:" + r.kind + "->" + r.result;
@@ -386,6 +408,7 @@ static std::string real(const std::string &scenario, int callers, int timeoutMs)
   for (int f : fill) ::close(f);
   ::close(okL);
   ::close(holeL);
+  ::close(garbL);
   return verdict.empty() ? "R ok" : "R" + verdict;
 }
 
